@@ -318,6 +318,44 @@ func (c *Ctx) ruleSelectSwap(cfg string, box limbBox) {
 	}
 }
 
+// ruleSelfSwap justifies the Swap aliasing exception: with both operands the same element Swap is the identity.
+func (c *Ctx) ruleSelfSwap(cfg string, box limbBox) {
+	p := c.Prog(cfg)
+	if p == nil {
+		return
+	}
+	fname := "field.(*Element).Swap"
+	f := c.anchor(p, fname)
+	if f == nil {
+		return
+	}
+	for cond := int64(0); cond <= 1; cond++ {
+		o := report.Obligation{Rule: "E6-MUX", Key: fmt.Sprintf("E6-MUX/%s/self/cond=%d", fname, cond), Config: cfg, Pos: p.Rel(f.Pos())}
+		d := absint.NewLimbDom(p, true)
+		in := absint.New(p, d)
+		in.Exec(func() []absint.Val { in.RunInit(p.Field); return nil })
+		v := newLimbElem(in, d, c.elementType(p), "v", box)
+		out := in.Run(f, []absint.Val{v, v, absint.MkInt(cond)})
+		if out.Kind != absint.ExitReturn {
+			o.Detail = out.Undecided + out.PanicMsg
+			c.Set.Add(o)
+			continue
+		}
+		o.OK = true
+		_, limbs := elemValue(d, v)
+		for i := 0; i < 5; i++ {
+			if limbs == nil || limbs[i].Key() != d.R.Var(fmt.Sprintf("v%d", i)).Key() {
+				o.OK = false
+				o.Detail = fmt.Sprintf("x.Swap(x, %d) changes limb %d of x (the aliasing exception for Swap assumes a self-swap is the identity)", cond, i)
+			}
+		}
+		if o.OK {
+			o.Detail = fmt.Sprintf("x.Swap(x, %d) leaves x unchanged: the masked difference is 0 and every write is a no-op (this is what the Swap aliasing exception rests on)", cond)
+		}
+		c.Set.Add(o)
+	}
+}
+
 // ruleWideAndReduce: SetWideBytes congruence (given SetBytes' layout) and the form of reduce.
 func (c *Ctx) ruleWideAndReduce(cfg string, box limbBox) {
 	p := c.Prog(cfg)
